@@ -77,12 +77,20 @@ var slots = make(chan struct{}, runtime.NumCPU())
 
 // runOne runs one solver process; its time limit (sec, plus a grace period) starts when it gets a CPU slot.
 func runOne(parent context.Context, name string, args []string, file string, sec int) (string, string) {
+	r, out, _ := runOneT(parent, name, args, file, sec)
+	return r, out
+}
+
+// runOneT also reports how long the process itself ran (not the time it waited for a CPU slot).
+func runOneT(parent context.Context, name string, args []string, file string, sec int) (res string, otext string, ms int64) {
 	select {
 	case slots <- struct{}{}:
 	case <-parent.Done():
-		return "timeout", "cancelled before start"
+		return "timeout", "cancelled before start", 0
 	}
 	defer func() { <-slots }()
+	t0 := time.Now()
+	defer func() { ms = time.Since(t0).Milliseconds() }()
 	ctx, cancelT := context.WithTimeout(parent, time.Duration(sec+2)*time.Second)
 	defer cancelT()
 	cmd := exec.CommandContext(ctx, name, append(args, file)...)
@@ -102,20 +110,20 @@ func runOne(parent context.Context, name string, args []string, file string, sec
 	}
 	switch first {
 	case "unsat", "sat", "unknown":
-		return first, text
+		return first, text, 0
 	case "timeout":
-		return "timeout", text
+		return "timeout", text, 0
 	}
 	if ctx.Err() != nil {
-		return "timeout", text
+		return "timeout", text, 0
 	}
 	if err != nil && text == "" {
-		return "error", err.Error()
+		return "error", err.Error(), 0
 	}
 	if strings.Contains(text, "timeout") || strings.Contains(text, "interrupted") {
-		return "timeout", text
+		return "timeout", text, 0
 	}
-	return "error", text
+	return "error", text, 0
 }
 
 type solverCmd struct {
@@ -449,9 +457,13 @@ func (s *Solver) SolvePortfolio(vs []Variant) Answer {
 	type res struct {
 		r, out, solver string
 		full           bool
+		ms             int64
 	}
 	finish := func(r res) Answer {
-		a := Answer{Result: r.r, Solver: r.solver, Output: r.out, File: file, Ms: time.Since(start).Milliseconds()}
+		a := Answer{Result: r.r, Solver: r.solver, Output: r.out, File: file, Ms: r.ms}
+		if r.r != "unsat" && r.r != "sat" {
+			a.Ms = time.Since(start).Milliseconds()
+		}
 		s.mu.Lock()
 		s.Stats[a.Solver+":"+a.Result]++
 		s.TotalMs += a.Ms
@@ -473,8 +485,8 @@ func (s *Solver) SolvePortfolio(vs []Variant) Answer {
 			n++
 			v := vs[i]
 			go func() {
-				r, out := runOne(ctx, sc.bin, sc.args(2), files[i], 2)
-				ch <- res{r, out, sc.name + "/" + v.Name, v.Full}
+				r, out, ms := runOneT(ctx, sc.bin, sc.args(2), files[i], 2)
+				ch <- res{r, out, sc.name + "/" + v.Name, v.Full, ms}
 			}()
 		}
 		for i, v := range vs {
@@ -519,8 +531,8 @@ func (s *Solver) SolvePortfolio(vs []Variant) Answer {
 			total++
 			i, v, sc := i, v, sc
 			go func() {
-				r, out := runOne(ctx, sc.bin, sc.args(sec), files[i], sec)
-				ch <- res{r, out, sc.name + "/" + v.Name, v.Full}
+				r, out, ms := runOneT(ctx, sc.bin, sc.args(sec), files[i], sec)
+				ch <- res{r, out, sc.name + "/" + v.Name, v.Full, ms}
 			}()
 		}
 	}
